@@ -130,13 +130,19 @@ def _stable_repr(value: Any) -> str:
             # same), only the object itself does.
             return "{}.{}@{}".format(module, name, _identity(value))
         return "{}.{}".format(module, name)
-    # Anything else (an instance of some class, a partial): a default
-    # representation carries an address, which is no more than a hint
-    # at which object it is.
-    text = repr(value)
-    if ' at 0x' in text:
-        text = "{}@{}".format(text, _identity(value))
-    return text
+    if isinstance(value, bytes):
+        return repr(value)
+    if isinstance(value, partial):
+        # (positional arguments in their order)
+        return "partial({}, [{}], {})".format(
+            _stable_repr(value.func),
+            ", ".join(_stable_repr(arg) for arg in value.args),
+            _stable_repr(value.keywords))
+    # Anything else (an instance of some class): what it prints as need
+    # not tell it from another one - a default representation carries an
+    # address, which is no more than a hint at which object it is, and
+    # any other may leave out what the instance was configured with.
+    return "{}@{}".format(repr(value), _identity(value))
 
 
 class PageTemplate(BaseTemplate):
